@@ -152,9 +152,24 @@ def judge(doc, nd=3):
     if v: return ('unique ids, every paint reference resolves to a gradient in defs, every gradient in defs is referenced (second conversion in the same process)', 'no violations', {'violations': v[:6], 'output': out2[:3000]})
     return None
 
+def id_syntax_docs():
+    """every XML name is an id: gradients named with dots, colons and non-ASCII letters, used by plain and by transformed shapes"""
+    G = lambda i: f'<linearGradient id="{i}"><stop offset="0" stop-color="red"/><stop offset="1" stop-color="blue"/></linearGradient>'
+    H = '<svg xmlns="http://www.w3.org/2000/svg" viewBox="0 0 40 40">'
+    for ids in (['a.b', 'c:d'], ['gr\u00fcn', '\u03b1\u03b2'], ['x-1_y', 'Verlauf-gr\u00fcn.2']):
+        for tf in ('', ' transform="translate(2,3)"'):
+            yield H + '<defs>' + ''.join(G(i) for i in ids) + '</defs>' + ''.join(f'<rect x="{5 * k}" y="2" width="4" height="9" fill="url(#{i})"{tf}/>' for k, i in enumerate(ids)) + '</svg>'
+
 def search(ctx, broken, disagreements):
     rng = ctx.rng
     found, n, dist = [], 0, {}
+    for doc in id_syntax_docs():
+        n += 1
+        v = judge(doc)
+        if v is None:
+            try: SVG.fromstring(doc).topicosvg()
+            except Exception as e: v = ('a document whose references all resolve is converted', 'normal return', {'raised': repr(e)[:300]})
+        if v and len(found) < 2: found.append({'law': v[0], 'input': {'doc': doc}, 'expected_by_spec': jsonable(v[1]), 'observed': jsonable(v[2])})
     for i in range(ctx.n(300, 6000)):
         doc = docgen.random_doc(rng, shared_ids=True, gradients=0.5, uses=0.45, strokes=0.4, clips=0.25, nested=0.2 if i % 3 == 0 else 0.0)
         n += 1
